@@ -149,6 +149,69 @@ theorem value_authentic_full_fails (hs : Hs D) (cfg : VCfg) (vlogs : List Bytes)
   have := hall ⟨[], [], 0, 0, d⟩ [] (value_vlen_zero_unchecked hs cfg vlogs txLog _ rfl)
   exact hd this.symm
 
+/-! ### Value reads through the value-log cache, after lenient accesses
+
+`readValueAtC` (`Tx/ValueCache.lean`) is `readValueAt` with `s.vLogCache` as an explicit state and the
+`skipIntegrityCheck` flag: the cache is keyed by the encoded offset, a miss stores what it read BEFORE any
+validation — also for a lenient `ExportTx(skipIntegrityCheck=true)` — and the length/digest comparison runs
+on cache hits and misses alike. The theorems quantify over EVERY cache content. -/
+
+/-- **A checked value read through the cache is authentic, whatever the cache holds** (bytes left by
+a lenient export of an altered value log, by a read of another entry with the same offset, after any
+eviction): a successful `ReadValue` of an entry with `vLen ≠ 0` returns bytes with the entry's digest
+and length. `_partial` for the same reason as `value_authentic_partial` (`vLen = 0`). -/
+theorem cached_value_authentic_partial (hs : Hs D) (cfg : VCfg) (vlogs : List Bytes) (txLog : Bytes)
+    (cache cache' : Option VCache) (e : Entry D) (v : Bytes) (hne : e.vLen ≠ 0)
+    (h : readValueC hs cfg vlogs txLog cache e = (cache', .ok v)) :
+    hs.H v = e.hVal ∧ v.length = e.vLen :=
+  readValueC_checked_thm hs cfg vlogs txLog cache cache' e v hne h
+
+/-- … hence an altered value is never served from the cache: error, the original, or a collision. -/
+theorem cached_value_flip_detected (hs : Hs D) (cfg : VCfg) (vlogs : List Bytes) (txLog : Bytes)
+    (cache cache' : Option VCache) (e : Entry D) (v orig : Bytes) (hne : e.vLen ≠ 0)
+    (horig : hs.H orig = e.hVal)
+    (h : readValueC hs cfg vlogs txLog cache e = (cache', .ok v)) :
+    v = orig ∨ HColl hs := by
+  have hv := (cached_value_authentic_partial hs cfg vlogs txLog cache cache' e v hne h).1
+  by_cases heq : v = orig
+  · exact .inl heq
+  · exact .inr ⟨v, orig, heq, by rw [hv, horig]⟩
+
+/-- **Read sequences.** On one store instance, starting from any cache content, in ANY sequence of
+value accesses — lenient exports (`skip = true`, which fill the cache with unvalidated bytes), checked
+exports, `ReadValue`s — every CHECKED access that succeeds returns bytes with the digest of its entry
+and the expected length (`ReadValue`: `vLen`, for `vLen ≠ 0`; `ExportTx`: the buffer it was given, also
+for `vLen = 0`). -/
+theorem cached_reads_authentic (hs : Hs D) (cfg : VCfg) (vlogs : List Bytes) (txLog : Bytes)
+    (cache : Option VCache) (ops : List (VRead D)) (i : Nat) (v : Bytes)
+    (h : (runReads hs cfg vlogs txLog cache ops)[i]? = some (.ok v)) :
+    (∀ e, ops[i]? = some (.readValue e) → e.vLen ≠ 0 → hs.H v = e.hVal ∧ v.length = e.vLen) ∧
+    (∀ e buf, ops[i]? = some (.exportRead e buf false) → hs.H v = e.hVal ∧ v.length = buf.length) :=
+  runReads_checked_thm hs cfg vlogs txLog ops cache i v h
+
+/-- Cache off (`VLogCacheSize = 0`, the default): the cached model is `readValue`. -/
+theorem cached_read_cache_off (hs : Hs D) (cfg : VCfg) (vlogs : List Bytes) (txLog : Bytes) (e : Entry D) :
+    readValueC hs cfg vlogs txLog none e = (none, readValue hs cfg vlogs txLog e) :=
+  readValueC_cache_off_thm hs cfg vlogs txLog e
+
+/-- **Transparency.** While the logs do not change, a cache filled by reads of these logs (`Coherent`,
+preserved by every read: `cache_coherent_preserved`) does not change any answer — checked or lenient —
+provided the offset is not cached with ANOTHER length (the tie skips exactly those reads). -/
+theorem cached_read_transparent (hs : Hs D) (cfg : VCfg) (vlogs : List Bytes) (txLog : Bytes)
+    (c : VCache) (b : Bytes) (vOff : Nat) (hVal : D) (skip : Bool)
+    (hc : c.Coherent cfg vlogs txLog)
+    (hlen : ∀ bs, c.get vOff = some bs → bs.length = b.length) :
+    (readValueAtC hs cfg vlogs txLog (some c) b vOff hVal skip).2 =
+    (readValueAtC hs cfg vlogs txLog none b vOff hVal skip).2 :=
+  cached_read_transparent_thm hs cfg vlogs txLog c b vOff hVal skip hc hlen
+
+theorem cache_coherent_preserved (hs : Hs D) (cfg : VCfg) (vlogs : List Bytes) (txLog : Bytes)
+    (c c' : VCache) (b : Bytes) (vOff : Nat) (hVal : D) (skip : Bool)
+    (hc : c.Coherent cfg vlogs txLog)
+    (h : (readValueAtC hs cfg vlogs txLog (some c) b vOff hVal skip).1 = some c') :
+    c'.Coherent cfg vlogs txLog :=
+  coherent_preserved_thm hs cfg vlogs txLog c c' b vOff hVal skip hc h
+
 /-- **K2 (documented limit).** Per-record self-authentication only: replace the entries of a
 well-formed record by ANY other well-formed entries (different keys, metadata, value hashes,
 even a different count) and recompute `NEntries`, `Eh` and the trailing Alh: the resulting
@@ -305,6 +368,28 @@ example : ∃ r' bs', reseal constHsD r0.hdr [e1] = some r' ∧ serializeTx cons
 /-- `value_authentic_partial` / `value_flip_detected`: successful non-empty value reads exist. -/
 example : readValue constHsD.toHs ⟨false, 1, 16⟩ [[9, 8, 7, 6]] [] ⟨[], [107], 3, 2 ^ 56 + 1, z⟩ = .ok [8, 7, 6] := by
   rfl
+
+/-- `cached_value_authentic_partial` / `cached_reads_authentic`: a lenient export followed by a checked
+`ReadValue` that is answered FROM THE CACHE (the log given to the second read is empty) exists. -/
+example : runReads constHsD.toHs ⟨false, 1, 16⟩ [[9, 8, 7, 6]] [] (some [])
+    [.exportRead ⟨[], [107], 3, 2 ^ 56 + 1, z⟩ [0, 0, 0] true, .readValue ⟨[], [107], 3, 2 ^ 56 + 1, z⟩] =
+    [.ok [8, 7, 6], .ok [8, 7, 6]] ∧
+    readValueC constHsD.toHs ⟨false, 1, 16⟩ [[]] [] (some [(2 ^ 56 + 1, [8, 7, 6])]) ⟨[], [107], 3, 2 ^ 56 + 1, z⟩ =
+    (some [(2 ^ 56 + 1, [8, 7, 6])], .ok [8, 7, 6]) := by
+  constructor <;> rfl
+
+/-- `cached_read_transparent` needs its length hypothesis: the offset cached with ANOTHER length (a lenient
+export of a record whose uncovered `vLen` was altered to 2 ran first) makes the checked read of the intact
+entry fail with `ErrCorruptedData` although the value on disk is fine (availability, not integrity). -/
+example : readValueC constHsD.toHs ⟨false, 1, 16⟩ [[9, 8, 7, 6]] [] (some [(2 ^ 56 + 1, [8, 7])]) ⟨[], [107], 3, 2 ^ 56 + 1, z⟩ =
+    (some [(2 ^ 56 + 1, [8, 7])], .error .corruptedData) ∧
+    VCache.Coherent ⟨false, 1, 16⟩ [[9, 8, 7, 6]] [] [(2 ^ 56 + 1, [8, 7])] := by
+  constructor
+  · rfl
+  · intro off bs hm
+    simp at hm
+    obtain ⟨rfl, rfl⟩ := hm
+    rfl
 
 /-- `value_vlen_zero_unchecked`: the same entry with `vLen := 0` is served as the empty value. -/
 example : readValue constHsD.toHs ⟨false, 1, 16⟩ [[9, 8, 7, 6]] [] ⟨[], [107], 0, 2 ^ 56 + 1, z⟩ = .ok [] :=
